@@ -34,7 +34,7 @@ type rwLimits struct {
 	Max int `yaotl:"max"`
 }
 type rwRoot struct {
-	Name    *string           `yaotl:"name,optional"`
+	Name    string            `yaotl:"name"`
 	Count   *int              `yaotl:"count,optional"`
 	Flag    *bool             `yaotl:"flag,optional"`
 	Tags    []string          `yaotl:"tags,optional"`
@@ -44,7 +44,7 @@ type rwRoot struct {
 }
 
 var rwSpec = hcldec.ObjectSpec{
-	"name":  &hcldec.AttrSpec{Name: "name", Type: cty.String},
+	"name":  &hcldec.AttrSpec{Name: "name", Type: cty.String, Required: true},
 	"count": &hcldec.AttrSpec{Name: "count", Type: cty.Number},
 	"flag":  &hcldec.AttrSpec{Name: "flag", Type: cty.Bool},
 	"tags":  &hcldec.AttrSpec{Name: "tags", Type: cty.List(cty.String)},
@@ -85,8 +85,19 @@ func nativeQuote(s string) string {
 	return strings.ReplaceAll(strings.ReplaceAll(sb.String(), "${", "$${"), "%{", "%%{")
 }
 
+// strings written as templates: the same text in both syntaxes (native: inside quotes; JSON: the string's content)
+var rwTemplates = map[string]string{
+	"if":     "%{ if true }on%{ else }off%{ endif }",
+	"interp": "v${1 + 1}",
+	"pct":    "50%%{x} %{ if false }no%{ endif }",
+	"badif":  "%{ if true }never closed",
+}
+
 func nativeValue(v map[string]any) string {
 	ss := rwStrs(v)
+	if sp, _ := v["sp"].(string); sp != "" {
+		return `"` + rwTemplates[sp] + `"`
+	}
 	switch v["t"] {
 	case "str":
 		return nativeQuote(ss[0])
@@ -110,6 +121,9 @@ func nativeValue(v map[string]any) string {
 
 func jsonValue(v map[string]any) any {
 	ss := rwStrs(v)
+	if sp, _ := v["sp"].(string); sp != "" {
+		return rwTemplates[sp]
+	}
 	esc := func(s string) string { return strings.ReplaceAll(strings.ReplaceAll(s, "${", "$${"), "%{", "%%{") }
 	switch v["t"] {
 	case "str":
@@ -447,9 +461,7 @@ func projectStruct(r *rwRoot) map[string]any {
 		}
 		add("meta", rwVal("map", ss))
 	}
-	if r.Name != nil {
-		add("name", rwVal("str", []string{*r.Name}))
-	}
+	add("name", rwVal("str", []string{r.Name}))
 	if r.Tags != nil {
 		add("tags", rwVal("list", append([]string{}, r.Tags...)))
 	}
